@@ -1732,6 +1732,44 @@ impl Writer {
   }
 }
 
+// Verification hooks: fire timed events without the wall-clock timer, read-only state views.
+#[cfg(rustdds_verif)]
+impl Writer {
+  /// Runs the handler of one timed event exactly as handle_timed_event would, without re-arming.
+  pub(crate) fn verif_fire(&mut self, e: TimedEvent) {
+    match e {
+      TimedEvent::Heartbeat => self.handle_heartbeat_tick(false),
+      TimedEvent::CacheCleaning => self.handle_cache_cleaning(),
+      TimedEvent::SendRepairData { to_reader } => self.handle_repair_data_send(to_reader),
+      TimedEvent::SendRepairFrags { to_reader } => self.handle_repair_frags_send(to_reader),
+    }
+  }
+  /// (first_seq, last_seq, sequence numbers get_by_sn can still return)
+  pub(crate) fn verif_history(&self) -> (i64, i64, Vec<i64>) {
+    (
+      i64::from(self.history_buffer.first_change_sequence_number()),
+      i64::from(self.history_buffer.last_change_sequence_number()),
+      self
+        .history_buffer
+        .sequence_number_to_instant
+        .keys()
+        .filter(|sn| self.history_buffer.get_by_sn(**sn).is_some())
+        .map(|sn| i64::from(*sn))
+        .collect(),
+    )
+  }
+  pub(crate) fn verif_reader_proxies(&self) -> Vec<&RtpsReaderProxy> {
+    self.readers.values().collect()
+  }
+  /// (wait_until, readers_pending) of the pending ack waiter
+  pub(crate) fn verif_ack_waiter(&self) -> Option<(i64, Vec<GUID>)> {
+    self
+      .ack_waiter
+      .as_ref()
+      .map(|aw| (i64::from(aw.wait_until), aw.readers_pending.iter().copied().collect()))
+  }
+}
+
 impl RTPSEntity for Writer {
   fn guid(&self) -> GUID {
     self.my_guid
